@@ -89,6 +89,13 @@ class CHECK(Check):
             F = reglib.mk_file_class(regs)
             try:
                 a, b = F.read(case["content"]), F.read(case["content"])
+                import math
+                for e in a.data:
+                    d = e.data if isinstance(e.data, list) else []
+                    if any(isinstance(v, float) and not math.isfinite(v) for v in d):
+                        # "1e907" reads as inf: non-finite floats are outside the properties' domain (they cannot be
+                        # written in E notation and NaN is never equal to itself)
+                        return {"nonfinite": True}
                 ba, bb = io.StringIO(), io.StringIO()
                 a.write(ba)
                 b.write(bb)
@@ -125,6 +132,8 @@ class CHECK(Check):
         return None
 
     def oracle(self, case, obs):
+        if isinstance(obs, dict) and obs.get("nonfinite"):
+            return None
         if not isinstance(obs, dict) or "ab" not in obs:
             return "comparison raised: %s" % (obs,)
         if case.get("kind") == "readtwice":
